@@ -303,4 +303,15 @@ theorem GenC14_example_request_served (clock : Nat) (H : Nat → ItemIn → HRes
 theorem GenC14_Send_dataflow : KmipGen.flow_Client_Send = ExpectFlow.flow_Client_Send := by decide +kernel
 theorem GenC14_request_copies : Wire.under "request".toList KmipGen.flow_Client_Send = Wire.reqFlow := by decide +kernel
 
+/-- which items a Response MUST carry for Decode to accept it (KMIP 1.4 section 7.2 / 6: Protocol Version, Time Stamp and Batch Count
+    in the header; Operation and Result Status in every batch item; header and at least one batch item in the message) - the
+    schema the Client's Decode works with is regenerated from /repo, so that a mandatory item silently becoming optional is
+    noticed: "a well-formed response" is what C14 lets Send return a payload for -/
+def requiredNames (sd : SD) : List String := (sd.fields.filter (fun f => f.required)).map (fun f => f.name)
+
+theorem GenC14_response_required :
+    requiredNames KmipGen.sd_Response = ["Header", "BatchItems"] ∧
+    requiredNames KmipGen.sd_ResponseHeader = ["Version", "TimeStamp", "BatchCount"] ∧
+    requiredNames KmipGen.sd_ResponseBatchItem = ["Operation", "ResultStatus"] := by decide +kernel
+
 end Kmip
